@@ -52,6 +52,8 @@ def faults_for(spec):
             out.append(("constant_false", pos))         # false constraints built from horizon symbols only
     if [v for v in spec["variables"] if v.get("role") != "horizon"]:
         out.append(("set_value_variable", 0))
+    if spec["T"]["kind"] == "param":
+        out.append(("set_initial_horizon_alias", 0))   # a guess on ocp.T while the horizon is a parameter
     # set_value on every other kind of non-parameter: control, bspline variable, quadrature state, algebraic
     out += [("set_value_nonparam", 0), ("set_value_nonparam", 1)]
     if spec.get("dyn") == "ode":
@@ -78,7 +80,7 @@ def gen_cases(rng, tier):
             # the same faults inside a sub-stage of a multi-stage OCP
             for (f, pos) in faults_for(spec):
                 if f in ("missing_der", "missing_value", "no_method", "signal_objective", "bad_grid_subject_to",
-                         "foreign_rhs", "foreign_constraint", "set_value_state", "set_value_nonparam", "set_initial_param", "DT_in_ode",
+                         "foreign_rhs", "foreign_constraint", "set_value_state", "set_value_nonparam", "set_initial_param", "set_initial_horizon_alias", "DT_in_ode",
                          "T_in_ode", "alg_explicit"):
                     cases.append({"kind": "substage", "spec": spec, "fault": f, "pos": pos, "base": b})
             if [p_ for p_ in spec["params"] if p_.get("role") != "horizon"]:
@@ -215,6 +217,8 @@ def build_faulty(spec, fault, pos, substage=False):
         st.set_initial(b.syms[spec["params"][0]["name"]], 1)
     if fault == "set_initial_foreign":
         st.set_initial(foreign, 1)
+    if fault == "set_initial_horizon_alias":
+        st.set_initial(st.T, 1.2)
     if fault != "no_method":
         st.method(build.make_method(spec["method"]))
     if fault != "no_solver":
